@@ -79,12 +79,21 @@ def oracle(seq, N, retries, f, ign, warmup=0, completed=0, samples=0):
             failed += 1
 
 
+OUTER_RETRIES = [None, 3, 2, None, 5]
+
+
 def run_impl(seq, N, retries, f, ign, warmup, data_file, fresh=True):
     if fresh and os.path.exists(data_file):
         os.remove(data_file)
     spec = RunSpec("B0", invocations=N, retries=retries, warmup=warmup, ignore_timeouts=ign,
                    max_invocation_time=5)
     raw = raw_config([spec])
+    # the run's own retries_after_failure (also an explicit 0) is set at the benchmark; less specific levels say something else
+    outer = OUTER_RETRIES[len(seq) % len(OUTER_RETRIES)]
+    if outer is not None:
+        raw["runs"] = dict(raw.get("runs", {}), retries_after_failure=outer)
+        for su in raw["benchmark_suites"].values():
+            su["retries_after_failure"] = outer + 1
     it = iter(seq)
 
     def script(bench, k, inv):
